@@ -218,11 +218,14 @@ pub fn run(ctx: &Ctx) -> Outcome {
         let n = (w * h) as usize;
         let init = canary(&mut rng, n);
         let t = random_transform(&mut rng, w as f64, h as f64);
-        let e = *rng.pick(&[-14i32, -13, -12, -11, -10, -9, -8, -6, -3, 3, 6, 8, 9, 10, 11, 12]);
+        // magnifications beyond 2^20 only for shapes without curves: lyon asserts that the flattening tolerance
+        // (0.1 device px expressed in user units) is at least 1e-8
+        let curves = rng.chance(0.5);
+        // (lyon's EPSILON for f32 is 1e-4, its limit 1e-8: with the random transform's own factor of up to 3 that is 2^20)
+        let e = if !curves && rng.chance(0.15) { *rng.pick(&[22i32, 24, 26, 30, 34]) } else { *rng.pick(&[-20i32, -16, -14, -13, -12, -11, -10, -9, -8, -6, -3, 3, 6, 8, 9, 10, 11, 12, 14, 16, 18, 20]) };
         let k = (2.0f32).powi(e);
         let src = scale_invariant_source(&random_source(&mut rng, w, h, 3));
         let o = DrawOptions { blend_mode: random_mode(&mut rng), alpha: random_alpha(&mut rng), antialias: if rng.chance(0.7) { AntialiasMode::Gray } else { AntialiasMode::None } };
-        let curves = rng.chance(0.5);
         let op = match rng.below(10) {
             8 | 9 => {
                 let (iw, ih) = (rng.int(1, 5) as i32, rng.int(1, 5) as i32);
@@ -234,7 +237,8 @@ pub fn run(ctx: &Ctx) -> Outcome {
                 }
             }
             0 | 1 => Op::Fill(random_path(&mut rng, w, h, curves), src, o),
-            2 => Op::Fill(small_shape(&mut rng, w, h), src, o),
+            2 if curves => Op::Fill(small_shape(&mut rng, w, h), src, o),
+            2 => Op::Fill(random_path(&mut rng, w, h, false), src, o),
             3 | 4 => Op::Stroke(random_path(&mut rng, w, h, curves), src, random_style(&mut rng, 5.), o),
             5 => Op::FillRect(rng.int(-1, w as i64) as f32, rng.int(-1, h as i64) as f32, rng.int(1, w as i64) as f32, rng.int(1, h as i64) as f32, src, o),
             6 => Op::FillRect(rng.range(-1., w as f64) as f32, rng.range(-1., h as f64) as f32, rng.range(0.5, w as f64) as f32, rng.range(0.5, h as f64) as f32, src, o),
@@ -243,7 +247,7 @@ pub fn run(ctx: &Ctx) -> Outcome {
                 Op::Mask(src, rng.int(-1, 2) as i32, rng.int(-1, 2) as i32, mw, mh, (0..(mw * mh)).map(|_| rng.byte_biased()).collect())
             }
         };
-        let clip_path = if rng.chance(0.2) { Some(small_shape(&mut rng, w, h)) } else { None };
+        let clip_path = if rng.chance(0.2) { Some(if curves { small_shape(&mut rng, w, h) } else { random_path(&mut rng, w, h, false) }) } else { None };
         let mut co = CaseOut::default();
         co.hash = crate::prng::hash_str(&format!("{:?}{:?}{:?}{}{:?}", (w, h), t, op, e, clip_path));
         let render = |scale: Option<f32>| -> Vec<u32> {
